@@ -69,9 +69,11 @@ def list_task(t):
         for act_i in [None] + list(range(len(names))):
             active = names[act_i] if act_i is not None else None
             for encs in itertools.product((0, 1), repeat=len(names)):
+              for marker in ((b"ACTIVE", b"active", b"Active") if active is not None and len(names) <= 2 else (b"ACTIVE",)):
                 enc_iter = list(encs)
                 ch = refms.FixedChoices({"list-name-literal": (lambda k, e=enc_iter: e[k] if k < len(e) else 0)})
                 srv = refms.RefServer(ch=ch, store={nm: b"keep;\r\n" for nm in names}, active=active)
+                srv.active_marker = marker
                 s = wire.open_session(srv)
                 o = s.call("listscripts")
                 n += 1
@@ -90,7 +92,7 @@ def list_task(t):
                     sym = "wrong-value" if o.kind == "ret" else ("exception:%s" % o.exc_type if o.kind == "exc" else o.kind)
                     viols.append({"property": "C17", "engine": "wire", "signature": ["C17", "listscripts", " ".join(sorted(cls)), sym],
                                   "what": "server holds %r (active %r), encodings %r: listscripts gave %s" % (names, active, encs, o.brief()),
-                                  "case": {"kind": "list", "names": list(names), "active": active, "encs": list(encs)},
+                                  "case": {"kind": "list", "names": list(names), "active": active, "encs": list(encs), "marker": marker.decode()},
                                   "witness": "listscripts of %r active=%r literal-flags=%r" % (names, active, encs), "observed": o.brief()})
                 elif sample is None and len(names) == 2 and active:
                     sample = {"names": list(names), "active": active, "returned": repr(o.value)}
